@@ -2615,10 +2615,27 @@ def project_C06(case, line):
     return " ".join(out)
 
 
+def mp_limit_outside_range(case):
+    """a motion-profile case whose velocity or acceleration limit is ±0, NaN or infinite: outside what C06/C07 quantify over (limits in
+    1e-2..1e3). The constructor then divides by zero and converts NaN / infinite durations; what comes out is not pinned by either
+    property (such lines exist for C19: every configuration must treat them alike)"""
+    t = case.split(" ")
+    if t[0] != "mp" or len(t) < 5:
+        return False
+    for tok in t[3:5]:
+        if tok.startswith("Q:"):
+            b = int(tok.split(":")[1], 16)
+            if (b & 0x7fffffff) == 0 or (b & 0x7f800000) == 0x7f800000:
+                return True
+    return False
+
+
 def precompare_C07(case, impl, model):
     """the stored phase durations t1,t2,t3 are f32 seconds converted to ns: pinned only within the rounding tolerance the property
     states.  When implementation and model differ ONLY by a few f32 ulps of seconds in those (and consequently in what the accessors
     return), the verdict is `soft`; the numeric oracle on the implementation's own outputs looks for a failing input."""
+    if case.startswith("mp ") and impl != model and mp_limit_outside_range(case):
+        return ("drift", "velocity / acceleration limit outside the quantified range")
     if not case.startswith("mp ") or impl == model or impl.startswith("PANIC") or model.startswith("PANIC"):
         return None
     a, b = impl.split(" "), model.split(" ")
